@@ -5,6 +5,7 @@ import (
 	"context"
 	"encoding/json"
 	"fmt"
+	"math"
 
 	"github.com/risor-io/risor/errz"
 	"github.com/risor-io/risor/op"
@@ -436,6 +437,12 @@ func (b *ByteSlice) Repeat(obj Object) Object {
 	count, err := AsInt(obj)
 	if err != nil {
 		return err
+	}
+	if count < 0 {
+		return Errorf("value error: byte_slice.repeat count must be >= 0 (%d given)", count)
+	}
+	if len(b.value) > 0 && count > int64(math.MaxInt/len(b.value)) {
+		return Errorf("value error: byte_slice.repeat result is too large")
 	}
 	return NewByteSlice(bytes.Repeat(b.value, int(count)))
 }
